@@ -119,6 +119,20 @@ def run(tier):
                 v = v0 + sum(gvec[a] * (M[a] - src[a]) for a in range(nd))
             tasks.append({"op": "api_solve", "grid": v, "gridsize": d2, "origin": None, "sources": list(src), "nsweep": 3,
                           "grad": False, "meta": dict(meta, nd=nd, sh=sh2, d=d2, src=src, ref=ref, cls=cls)})
+    # 3-D half-spaces with an X- or Y-normal interface on non-cubic shapes (nx != ny), fast half-space first, source
+    # in the slow one: exercises the clamped cell indices of the ZY / XY plane operators
+    for sh, ax in (((3, 6, 3), 1), ((2, 7, 3), 1), ((3, 3, 6), 2), ((2, 4, 7), 2), ((6, 3, 4), 0)):
+        d = (0.5, 0.5, 0.5)
+        ki = sh[ax] // 2
+        v1, v2 = 3.0, 1.0
+        src = tuple((sh[a] - 0.5) * d[a] if a == ax else 0.25 * sh[a] * d[a] for a in range(3))
+        for ref in (1, 2):
+            sh2 = tuple(n * ref for n in sh)
+            d2 = tuple(x / ref for x in d)
+            v = np.where(np.indices(sh2)[ax] < ki * ref, v1, v2)
+            tasks.append({"op": "api_solve", "grid": v, "gridsize": d2, "origin": None, "sources": list(src), "nsweep": 3,
+                          "grad": False, "meta": {"kind": "half", "ax": ax, "ki": ki, "v1": v1, "v2": v2, "nd": 3, "sh": sh2,
+                                                  "d": d2, "src": src, "ref": ref, "cls": "interior"}})
     for mode in (("jit",) if q else ("jit", "interp")):
         res = C.run_impl(tasks, mode, timeout=6000)
         prev = None
